@@ -71,6 +71,9 @@ def build_result(fs, S2, iscsd, pts, m2=None):
     return SpectrumResult(d, {}, iscsd, fs)
 
 
+EPS = float(np.finfo(np.float64).eps)
+
+
 def _grid(shard):
     fs, S2, iscsd = shard["fs"], shard["S2"], shard["iscsd"]
     mags = (1e-200, 1e-6, 1.0, 1e6, 1e200)
@@ -114,10 +117,13 @@ def _grid(shard):
         Gxy = np.asarray(r.Gxy)
         close("Gxy_error", r.Gxy_error, bp.gxy_error(g2, n))
         close("Gxy_dev", r.Gxy_dev, bp.gxy_dev(Gxy, g2, n))
-        close("Hxy_mag_error", r.Hxy_mag_error, bp.h_mag_error(g2, n))
-        close("Hxy_dev", r.Hxy_dev, bp.h_dev(H, g2, n))
-        close("coh_error", r.coh_error, bp.coh_error(g2, n))
-        close("coh_dev", r.coh_dev, bp.coh_dev(g2, n))
+        # a coherence that is 1 to within a few ulp makes (1-g2) a rounding residue: its sign and whether it is clamped to zero are
+        # not pinned by the property, so at those points the expressions are demanded only to the size of that residue
+        resid = np.where(np.abs(1.0 - g2) <= 8 * EPS, 8 * EPS, 0.0)
+        close("Hxy_mag_error", r.Hxy_mag_error, bp.h_mag_error(g2, n), atol=np.sqrt(resid) / np.sqrt(2.0 * g2 * n) + 1e-300)
+        close("Hxy_dev", r.Hxy_dev, bp.h_dev(H, g2, n), atol=np.abs(H) * np.sqrt(resid) / np.sqrt(2.0 * g2 * n) + 1e-300)
+        close("coh_error", r.coh_error, bp.coh_error(g2, n), atol=2 * np.sqrt(2.0) * resid / np.sqrt(g2 * n) + 1e-300)
+        close("coh_dev", r.coh_dev, bp.coh_dev(g2, n), atol=2 * np.sqrt(2.0 * g2) * resid / np.sqrt(n) + 1e-300)
         # deviation = estimate x normalised error
         close("Gxy_dev=|Gxy|*err", np.asarray(r.Gxy_dev), np.abs(Gxy) * np.asarray(r.Gxy_error), 1e-11)
         close("Hxy_dev=|H|*err", np.asarray(r.Hxy_dev), np.abs(H) * np.asarray(r.Hxy_mag_error), 1e-11)
